@@ -136,12 +136,12 @@ Proof.
   set (s1 := set_pause s false (s_quit s)). assert (H1 : names_ok s1) by exact H.
   destruct (gdb_get (s_gdb s1) id).
   - pose proof (conn_message_names s1 id rel m H1) as G.
-    destruct (conn_message P s1 id rel m) as [[[s3 o2] err] st]. cbn [fst] in G. destruct err; exact G.
+    destruct (conn_message P s1 id rel m) as [[[s3 o2] err] st]. cbn [fst] in G. destruct err as [[e msg]|]; exact G.
   - pose proof (open_conn_names s1 id (is_get_registry m) H1) as G0.
     destruct (open_conn s1 id (is_get_registry m)) as [sa oa]. cbn [fst] in G0.
     set (s2 := set_gdb sa _). assert (H2 : names_ok s2) by exact G0.
     pose proof (conn_message_names s2 id rel m H2) as G.
-    destruct (conn_message P s2 id rel m) as [[[s3 o2] err] st]. cbn [fst] in G. destruct err; exact G.
+    destruct (conn_message P s2 id rel m) as [[[s3 o2] err] st]. cbn [fst] in G. destruct err as [[e msg]|]; exact G.
 Qed.
 
 Lemma record_names s s' : record_of s' = record_of s -> names_ok s -> names_ok s'.
